@@ -22,7 +22,7 @@ REG = {
  "C17": ("msched", "Coq theorems over the association auto-task and back-off models + correspondence with the real master task"),
  "C19": ("msched", "Coq theorems over the scheduling model (user FIFO before polls, poll cadence, round robin, keep-alive, one outstanding) + correspondence with the real master task"),
  "C01": ("all", "PARTIAL: Coq theorems for termination/fuel/guards of the modelled layers and a reviewed ledger of every potential panic site regenerated from the source; the runtime part (no panic or stall on hostile input, liveness afterwards) by hostile runs through the real stack"),
- "C02": ("pair", "PARTIAL: Coq theorems over an abstract composition of the per-layer guarantees (nothing fabricated, convergence after quiescence, undiscarded events delivered); the runtime part by end-to-end runs of the real TCP/link/transport stack with re-chunking and cuts"),
+ "C02": ("pair", "PARTIAL: Coq theorems over an abstract composition of the per-layer guarantees (nothing fabricated, convergence after quiescence, undiscarded events delivered) plus a trace-abstraction check: every recorded end-to-end run of the real TCP/link/transport stack (re-chunking, cuts) must be accepted by the extracted `explain` as a run of that abstract system, and transfer theorems carry the abstract theorems to explained runs; schedules and byte offsets not sampled are not covered"),
 }
 def main():
     registered = sys.argv[1:]
@@ -33,7 +33,7 @@ def main():
         checks.append({"property_id": pid, "quick_cmd": "./check %s quick" % pid, "thorough_cmd": "./check %s thorough" % pid,
             "evidence_file": "evidence/%s.json" % pid, "replay_cmd_template": "./check %s --replay {path}" % pid, "engine": eng,
             "level_claimed": {"category": "proof", "text": text, "design_ref": "DESIGN.md section 6, " + pid},
-            "level_note": "trusted: Coq 8.16.1 kernel + vm_compute; translators tools/gen/*.py; extraction (ExtrOcamlBasic only); the Rust harness compiled into the crate's test build (hooks H1,H2,H4,H5,H6); hand-written models are tied to the code by differential execution only; see DESIGN.md sections 8 and 9",
+            "level_note": "trusted: Coq 8.16.1 kernel + vm_compute; translators tools/gen/*.py; extraction (ExtrOcamlBasic only); the Rust harness compiled into the crate's test build (hooks H1,H2,H4,H5,H6,H7); hand-written models are tied to the code by differential execution only; see DESIGN.md sections 8 and 9",
             "technique": "machine-checked proof in Coq over an executable model + model/implementation correspondence (differential execution) + direct oracle on implementation traces"})
     m["checks"] = checks
     hooks = os.popen("git -C /repo log --format='%h %s' | grep 'verif hook' | awk '{print $1}'").read().split()
